@@ -378,3 +378,35 @@ wait:
 	}
 	return res, nil
 }
+
+// Watch starts the command and waits for it. A process that has used SpinCPU of processor time without exiting is
+// killed and reported as ErrSpinning (non-termination: the measure is processor time, not the clock); a process
+// that reaches WallLimit without having used that much processor time was starved or is blocked: ErrTimeout (no
+// verdict). Otherwise the result of Wait is returned.
+func Watch(cmd *exec.Cmd) error {
+	if err := cmd.Start(); err != nil {
+		return err
+	}
+	done := make(chan error, 1)
+	go func() { done <- cmd.Wait() }()
+	start := time.Now()
+	tick := time.NewTicker(250 * time.Millisecond)
+	defer tick.Stop()
+	for {
+		select {
+		case err := <-done:
+			return err
+		case <-tick.C:
+			if cpuTime(cmd.Process.Pid) >= SpinCPU {
+				_ = cmd.Process.Kill()
+				<-done
+				return ErrSpinning
+			}
+			if time.Since(start) >= WallLimit {
+				_ = cmd.Process.Kill()
+				<-done
+				return ErrTimeout
+			}
+		}
+	}
+}
